@@ -133,7 +133,7 @@ def run(rep, tier):
         try:
             gradients(rep, label, kind, spec, ctx, inside, pw, sy, site)
         except AlgError as e:
-            rep.undecided("%s: end-gradient clause not representable (%s)" % (label, e))
+            rep.ob("R2", "%s: end-gradient clause" % label, False, site, "not representable: %s" % e, key=label + "/gradients")
         # R3 scaling
         try:
             ctx2 = Context()
@@ -154,7 +154,7 @@ def run(rep, tier):
             rep.ob("R3", "%s: s[2N, 2N_norm](2i) == s[N, N_norm](i)%s" % (label, " with the root constraint invariant" if ex2.roots else ""),
                    okc and d.is_zero(), site, "residual " + d.residual()[:160], key=label + "/scale")
         except AlgError as e:
-            rep.undecided("%s: scaling identity not representable (%s)" % (label, e))
+            rep.ob("R3", "%s: s[2N, 2N_norm](2i) == s[N, N_norm](i)" % label, False, site, "not representable: %s" % e, key=label + "/scale")
     rep.floor("R1.arms", narms, 12)
     r3_callsites(prog, rep)
     r4(prog, rep)
